@@ -2271,7 +2271,6 @@ void BW_MidiSequencer::rewind()
 
     m_loop.loopsCount = m_loopCount;
     m_loop.reset();
-    m_loop.caughtStart  = true;
     m_loop.temporaryBroken = false;
     m_time.reset();
 }
